@@ -403,6 +403,9 @@ class World:
                 key = "maxfun" if method == "TNC" else "maxiter"
                 opts[key] = peer["k"]
                 self.fired.append({"peer": "truncate", "k": peer["k"], "method": method})
+            if peer and peer["mode"] == "scripted" and peer.get("x") == "far":
+                # no explicit point: one far away from the start (used to provoke optyx's retry)
+                peer = dict(peer, x=[float(v) + 37.0 * (1 if i % 2 == 0 else -1) for i, v in enumerate(np.asarray(x0, dtype=float))])
             if peer and peer["mode"] == "scripted" and peer.get("x") != "real":
                 # a peer that never runs SciPy: evaluates callbacks in a scripted order
                 x0a = np.asarray(x0, dtype=float)
